@@ -34,9 +34,9 @@ PROPS = ["StatementsSeeOwnWrites", "NoDirtyReadsAct", "FailedStatementNoEffect",
 
 # which kinds of deviation from the design each property forbids (the others are reported as out-of-scope notes)
 RELEVANT = {
-    "C12": {"constraint-breach", "failed-statement-effect", "panic", "stale-catalog", "catalog-mismatch"},
+    "C12": {"constraint-breach", "failed-statement-effect", "panic", "stale-catalog", "catalog-mismatch", "ddl-isolation"},
     "C13": {"spurious-failure", "violating-statement-accepted", "outcome", "tx-state", "query-result", "count", "generated-key",
-            "table", "failed-statement-effect", "panic", "serial-order", "stale-catalog", "catalog-mismatch"},
+            "table", "failed-statement-effect", "panic", "serial-order", "stale-catalog", "catalog-mismatch", "ddl-isolation"},
 }
 
 
@@ -475,7 +475,7 @@ def cat_post(chk, d):
     devs = (r.get("extra") or {}).pop("deviations", None) or []
     vlib.absorb(chk, r)
     ctr = r.get("counters") or {}
-    for need in ("cat:pattern:cold-open+concurrent-ddl+empty-commit", "cat:pattern:...then-insert", "cat:crUIdx:ok", "cat:showcat:ok", "cat:commit:conflict"):
+    for need in ([] if devs else ["cat:pattern:cold-open+concurrent-ddl+empty-commit", "cat:pattern:...then-insert", "cat:crUIdx:ok", "cat:showcat:ok", "cat:commit:conflict"]):
         if not ctr.get(need):
             raise MachineryFault("vacuous: catalog behaviours never reached %s on the real engine" % need)
     plain_report(chk, devs, "sqlcat", "catalog behaviours of SQLCat.tla on one sql.Engine")
@@ -642,16 +642,16 @@ def ddl_post(chk, d):
     vlib.absorb(chk, r)
     ctr = r.get("counters") or {}
     need = ["ddl:pattern:write-while-other-session-has-uncommitted-ddl", "ddl:pattern:write-after-rolled-back-ddl",
-            "ddl:pattern:drop-constraint-rolled-back-then-violating-write-refused", "ddl:rollback:ok", "ddl:commit:ok", "ddl:showcat:ok"]
+            "ddl:pattern:drop-constraint-rolled-back-then-violating-write-must-be-refused", "ddl:rollback:ok", "ddl:commit:ok", "ddl:showcat:ok"]
     need += ["ddl:%s:ok" % k for k in d["kinds"]]
-    for k in need:
+    for k in ([] if devs else need):          # behaviours cut short by a deviation say nothing about coverage
         if not ctr.get(k):
             raise MachineryFault("vacuous: DDL-in-transaction behaviours never reached %s on the real engine" % k)
     plain_report(chk, devs, "sqlddl", "DDL-in-transaction behaviours of SQLDdl.tla on one sql.Engine")
     chk.cov["transactional_ddl"] = {"behaviours": d["n"], "steps": r.get("evaluations", 0),
                                     "writes_while_other_session_has_uncommitted_ddl": ctr.get("ddl:pattern:write-while-other-session-has-uncommitted-ddl", 0),
                                     "writes_after_rolled_back_ddl": ctr.get("ddl:pattern:write-after-rolled-back-ddl", 0),
-                                    "drop_constraint_rolled_back_then_violating_write_refused": ctr.get("ddl:pattern:drop-constraint-rolled-back-then-violating-write-refused", 0)}
+                                    "drop_constraint_rolled_back_then_violating_write_must_be_refused": ctr.get("ddl:pattern:drop-constraint-rolled-back-then-violating-write-must-be-refused", 0)}
     vlib.log("[ddl] %d behaviours replayed in %.1fs, %d deviations" % (d["n"], d["secs"], len(devs)))
 
 
